@@ -8,15 +8,6 @@ import Genshi.Lemmas.XmlIdemC
 namespace Genshi.Xml
 open Genshi Genshi.Xml.Reader
 
-/-- no START_NS / END_NS event: what `genshi.builder` produces -/
-def noNs : XEv → Bool
-  | .ev (.startNs _ _) => false
-  | .ev (.endNs _) => false
-  | _ => true
-
-/-- a stream without namespace events -/
-def builderShaped (xs : List XEv) : Bool := xs.all noNs
-
 structure BRel (st1 st2 : FSt) (pst : PSt) (ck : CkSt) : Prop where
   bind : scopeOf st2.bindings = scopeOf st1.bindings
   elems : st2.elems = st1.elems
